@@ -30,13 +30,13 @@ def notNorm (a : Term) : Term :=
 /-- `Mk.ToReal` on an Int-sorted argument -/
 def toRealNorm (a : Term) : Term :=
   match a with
-  | .node .intConst _ (.i n) => Term.real n
+  | .node .intConst [] (.i n) => Term.real n
   | _ => .node .toReal [a] .none
 
 /-- `Mk.Div` -/
 def mkDivNorm (a b : Term) : Term :=
   match b with
-  | .node .realConst _ (.q c) => if c = 0 then .node .div [a, b] .none else .node .times [a, Term.real (1 / c)] .none
+  | .node .realConst [] (.q c) => if c = 0 then .node .div [a, b] .none else .node .times [a, Term.real (1 / c)] .none
   | _ => .node .div [a, b] .none
 
 /-- `SmtLibParser._division` -/
@@ -185,21 +185,9 @@ theorem bvWidth_ite (c a b : Term) (p : Payload) : Mk.bvWidth (.node .ite [c, a,
 
 /-- `bv_width()` of a node that is not an if-then-else looks at the node itself -/
 theorem bvWidth_nonite (op : Op) (args : List Term) (p : Payload) (h : op ≠ .ite) :
-    Mk.bvWidth (.node op args p) =
-      (match (Term.node op args p) with
-       | .node .bvConst _ (.bv _ w) => .ok w
-       | .node .symbol _ (.sym s) =>
-         if s.params.isEmpty then (match s.ret with | .bv w => .ok w | _ => .error .assertion)
-         else .error .assertion
-       | .node .function _ (.sym f) => (match f.ret with | .bv w => .ok w | _ => .error .other)
-       | .node .ite _ _ => .error .other
-       | .node .arraySelect (a :: _) _ =>
-         (match a.typeOf with | some (.array _ (.bv w)) => .ok w | _ => .error .other)
-       | .node op _ (.ints (w :: _)) => if Mk.isBvOp op then .ok w else .error .assertion
-       | .node op _ _ => if Mk.isBvOp op then .error .other else .error .assertion) := by
+    Mk.bvWidth (.node op args p) = Mk.leafWidth (.node op args p) := by
   unfold Mk.bvWidth
   rw [iteLeaf_nonite _ _ _ _ h]
-  rfl
 
 /-- a bit-vector operator node carries its width in the payload -/
 theorem bvWidth_bvop (op : Op) (args : List Term) (w : Nat) (rest : List Nat) (h : Mk.isBvOp op = true) :
@@ -209,22 +197,22 @@ theorem bvWidth_bvop (op : Op) (args : List Term) (w : Nat) (rest : List Nat) (h
   cases op <;> first | (cases h; done) | rfl
 
 theorem bvWidth_bvc (v w : Nat) : Mk.bvWidth (Term.bvc v w) = .ok w := by
-  rw [Term.bvc, bvWidth_nonite _ _ _ (by decide)]
+  rw [Term.bvc, bvWidth_nonite _ _ _ (by decide)]; rfl
 
 theorem bvWidth_sym (s : Sym) (w : Nat) (hp : s.params.isEmpty = true) (hr : s.ret = .bv w) :
     Mk.bvWidth (Term.sym s) = .ok w := by
   rw [Term.sym, bvWidth_nonite _ _ _ (by decide)]
-  simp [hp, hr]
+  simp [Mk.leafWidth, hp, hr]
 
 theorem bvWidth_app (f : Sym) (args : List Term) (w : Nat) (hr : f.ret = .bv w) :
     Mk.bvWidth (.node .function args (.sym f)) = .ok w := by
   rw [bvWidth_nonite _ _ _ (by decide)]
-  simp [hr]
+  simp [Mk.leafWidth, hr]
 
 theorem bvWidth_select (a i : Term) (p : Payload) (it : Ty) (w : Nat) (h : a.typeOf = some (.array it (.bv w))) :
     Mk.bvWidth (.node .arraySelect [a, i] p) = .ok w := by
   rw [bvWidth_nonite _ _ _ (by decide)]
-  simp [h]
+  simp [Mk.leafWidth, h]
 
 /-! ## calling the manager -/
 
